@@ -159,7 +159,9 @@ def run(ctx):
                 "orders x {built from objects, loaded from XML}, checking StableAfterOne / WriteIsPure / NoDuplicates, and compared with the "
                 "cache orders the real library shows after build and after each of 3 write/load cycles. On the same definitions and on random "
                 "rich definitions (all field kinds) the real serializer is checked directly: W(D) = W(D) bytewise, output well-formed with "
-                "every element in the definition's namespace, D unchanged by writing, G2 = G3 = G4 bytewise. distinct = (graph, order, route).")
+                "every element in the definition's namespace, D unchanged by writing, G2 = G3 = G4 bytewise; write_xml files likewise. Hand-written documents (string-encoded "
+                "enumerations in every codec / byte-order spelling, time encodings) and all bundled / mission documents go through the same "
+                "cycle checks. distinct = (graph, order, route).")
     ctx.assumptions = ["header date fixed (definition.date set)", "byte equality is observed directly on the real serializer; the TLA+ model "
                        "explains ordering only (value formatting such as 0 vs 0.0 is covered by the byte comparison of G2/G3/G4)"]
     cases = []
@@ -229,8 +231,90 @@ def run(ctx):
         if len(hist) == 4 and hist[1] != hist[2]:
             ctx.violation("C15/rich/orders-unstable", f"{hist[1]} vs {hist[2]}", {"defn": g.d, "route": list(route)})
     ctx.extra["rich_definitions"] = nrich
+    documents_section(ctx)
     ctx.sample({"graph": lines[len(lines) // 2]["conts"], "order0": lines[len(lines) // 2]["order0"], "how": lines[len(lines) // 2]["how"],
                 "orders_after_build_and_cycles": lines[len(lines) // 2]["obs"]}, limit=2)
+
+
+def extra_documents():
+    """Hand-written documents for constructs the abstract definitions do not generate: enumerations over string encodings in every
+    codec / byte-order spelling the loader accepts, time encodings with offset only / scale only / both / none.  (name, xml, root)"""
+    def doc(types, params, entries):
+        return ('<?xml version="1.0" encoding="UTF-8"?>\n<xtce:SpaceSystem xmlns:xtce="http://www.omg.org/space/xtce" name="T">'
+                '<xtce:Header date="2024-01-01T00:00:00" version="1.0" author="a"/><xtce:TelemetryMetaData>'
+                f'<xtce:ParameterTypeSet>{types}</xtce:ParameterTypeSet><xtce:ParameterSet>{params}</xtce:ParameterSet>'
+                f'<xtce:ContainerSet><xtce:SequenceContainer name="ROOT"><xtce:EntryList>{entries}</xtce:EntryList></xtce:SequenceContainer>'
+                '</xtce:ContainerSet></xtce:TelemetryMetaData></xtce:SpaceSystem>')
+
+    def enum_str(name, codec, order, bits, values):
+        bo = f' byteOrder="{order}"' if order else ""
+        en = "".join(f'<xtce:Enumeration value="{v}" label="L{i}"/>' for i, v in enumerate(values))
+        return (f'<xtce:EnumeratedParameterType name="{name}"><xtce:StringDataEncoding encoding="{codec}"{bo}><xtce:SizeInBits><xtce:Fixed>'
+                f'<xtce:FixedValue>{bits}</xtce:FixedValue></xtce:Fixed></xtce:SizeInBits></xtce:StringDataEncoding>'
+                f'<xtce:EnumerationList>{en}</xtce:EnumerationList></xtce:EnumeratedParameterType>')
+
+    def time_t(name, kind, attrs):
+        return (f'<xtce:{kind}TimeParameterType name="{name}"><xtce:Encoding {attrs}><xtce:IntegerDataEncoding sizeInBits="8" '
+                f'encoding="unsigned"/></xtce:Encoding>' + ('<xtce:ReferenceTime><xtce:Epoch>TAI</xtce:Epoch></xtce:ReferenceTime>' if kind == "Absolute" else "")
+                + f'</xtce:{kind}TimeParameterType>')
+    out = []
+    MSB, LSB = "mostSignificantByteFirst", "leastSignificantByteFirst"
+    combos = [("UTF-8", "", 8), ("US-ASCII", "", 8), ("ISO-8859-1", "", 8), ("Windows-1252", "", 8), ("UTF-16", MSB, 32), ("UTF-16", LSB, 32),
+              ("UTF-16BE", "", 16), ("UTF-16LE", "", 16), ("UTF-16BE", LSB, 16), ("UTF-32", MSB, 64), ("UTF-32", LSB, 64), ("UTF-32BE", "", 32),
+              ("UTF-32LE", "", 32)]
+    for values in (("A", "B"), ("AB", "ba", "Z"), ("\u00e9", "x")):
+        types = params = entries = ""
+        for i, (codec, order, bits) in enumerate(combos):
+            if values[0] == "\u00e9" and codec == "US-ASCII":
+                continue
+            types += enum_str(f"E{i}_T", codec, order, bits, values)
+            params += f'<xtce:Parameter name="E{i}" parameterTypeRef="E{i}_T"/>'
+            entries += f'<xtce:ParameterRefEntry parameterRef="E{i}"/>'
+        out.append((f"string-enumerations {values}", doc(types, params, entries), "ROOT"))
+    types = params = entries = ""
+    for j, a in enumerate(['offset="5"', 'scale="2"', 'offset="5" scale="0.25"', 'units="seconds"', "", 'offset="0" scale="1"', 'offset="-3.5"']):
+        for kind in ("Absolute", "Relative"):
+            types += time_t(f"T{kind[0]}{j}_T", kind, a)
+            params += f'<xtce:Parameter name="T{kind[0]}{j}" parameterTypeRef="T{kind[0]}{j}_T"/>'
+            entries += f'<xtce:ParameterRefEntry parameterRef="T{kind[0]}{j}"/>'
+    out.append(("time encodings", doc(types, params, entries), "ROOT"))
+    return out
+
+
+def documents_section(ctx):
+    """the hand-written documents above and every bundled / mission document: same byte-level checks"""
+    import glob
+    import warnings
+    from space_packet_parser.xtce.definitions import XtcePacketDefinition
+    n = 0
+    todo = [(nm, io.BytesIO(x.encode()), "xtce", root, {"document": nm}) for nm, x, root in extra_documents()]
+    for f in sorted(glob.glob("/repo/tests/test_data/*.xml")) + sorted(glob.glob("/repo/tests/test_data/*/*.xml")):
+        head = open(f, "rb").read(3000).decode("utf-8", "ignore")
+        todo.append((f, f, "xtce" if 'xmlns:xtce="' in head else None, None, {"file": f}))
+    for nm, src, prefix, root, rep in todo:
+        try:
+            with warnings.catch_warnings():
+                warnings.simplefilter("ignore")
+                kw = {"root_container_name": root} if root else {}
+                dobj = XtcePacketDefinition.from_xtce(src, xtce_ns_prefix=prefix, **kw)
+        except Exception as e:  # noqa: BLE001
+            if "file" in rep:
+                continue                    # bundled documents that are not loadable on their own (fragments, other roots)
+            ctx.violation("C15/document/does-not-load", f"{nm}: {type(e).__name__}: {e}"[:300], rep)
+            continue
+        try:
+            hist, docs, probs = cycles(dobj)
+        except Exception as e:  # noqa: BLE001
+            ctx.violation("C15/document/exception", f"{nm}: {type(e).__name__}: {e}"[:300], rep)
+            continue
+        n += 1
+        ctx.traces += 1
+        ctx.count(("document", nm))
+        for p in probs:
+            ctx.violation("C15/document/" + p.split("(")[0].strip().replace(" ", "-")[:50], f"{nm}: {p}", rep)
+    ctx.extra["documents_cycled"] = n
+    if n < 8:
+        ctx.vacuity(f"only {n} documents loaded for the document section")
 
 
 def replay(ctx, obj):
